@@ -425,7 +425,7 @@ class Variants(productmd.composeinfo.VariantBase):
     def deserialize_1_0(self, parser):
         if not parser.has_option("tree", "variants"):
             return []
-        variant_ids = [i for i in parser.get("tree", "variants").split(",")]
+        variant_ids = [i for i in parser.get("tree", "variants").split(",") if i]
         return variant_ids
 
 
@@ -1039,6 +1039,10 @@ class General(productmd.common.MetadataBase):
         variants = list(self._metadata.variants)
         variants.sort()
         parser.set(self._section, "variants", ",".join(variants))
+
+        if not variants and main_variant is None:
+            # a tree without variants has no main variant to mirror
+            return
 
         # HACK: if there are more variants and main_variant is None,
         # use the first variant if
